@@ -58,12 +58,19 @@ class Engine(ValueOps, ExprOps, CallOps, StmtOps):
         self.no_inline = set()
         self.hook_guards = []
         self.init_const_cache = {}
+        self.locals_cache = {}
         self.store_count_cache = {}
         self.reset_run()
 
     def reset_run(self):
         self.st = None
         self.spec_env = {}
+        from . import api as _api
+        for k, v in _api.SPEC_CONSTS.items():
+            try:
+                self.spec_env[k] = self.const(v)
+            except Exception:
+                pass
         self.spec_mode = False
         self.old_state = None
         self.ctx_stack = []
@@ -80,6 +87,7 @@ class Engine(ValueOps, ExprOps, CallOps, StmtOps):
         self.spec_depth = {}
         self.hole_log = []
         self.guards = []
+        self.share_cache = {}
         self.wf_used = set()
 
     # ------------------------------------------------------------ names (ghost variables)
@@ -91,7 +99,19 @@ class Engine(ValueOps, ExprOps, CallOps, StmtOps):
             return self.spec_env[node.id]
         if node.id in st.ghost:
             return st.ghost[node.id]
+        fi = self.ctx_stack[-1] if self.ctx_stack else None
+        if fi is not None and not self.spec_mode and node.id in self.local_names(fi):
+            self.fail('UnboundLocalError', 'local variable %s read before assignment' % node.id, getattr(node, 'lineno', 0))
         return SV('global', const=node.id)
+
+    def local_names(self, fi):
+        if fi.key not in self.locals_cache:
+            names = set()
+            for n in ast.walk(fi.node):
+                if isinstance(n, ast.Name) and isinstance(n.ctx, ast.Store):
+                    names.add(n.id)
+            self.locals_cache[fi.key] = names
+        return self.locals_cache[fi.key]
 
     def getattr(self, base, attr, node=None):
         if base.kind == 'ref':
@@ -532,6 +552,7 @@ class Engine(ValueOps, ExprOps, CallOps, StmtOps):
                 if con.fresh and res.kind == 'list':
                     q = mk_select(self.seqheap(), res.term)
                     res = SV('list', seq=q, owned=True, ty=res.ty)
+            res = self.share(res, 'res')
             st.env['result'] = res
             for e in con.ensures:
                 st.assume(self.spec_eval_bool(e), 'ensures')
@@ -790,10 +811,70 @@ class FunctionResult:
         self.gen_time = 0
 
 
+def _sjoin_terms(text):
+    out = []
+    i = 0
+    while True:
+        i = text.find('(sjoin ', i)
+        if i < 0:
+            return out
+        d = 0
+        j = i
+        instr = False
+        while j < len(text):
+            c = text[j]
+            if c == '"':
+                instr = not instr
+            elif not instr:
+                if c == '(':
+                    d += 1
+                elif c == ')':
+                    d -= 1
+                    if d == 0:
+                        break
+            j += 1
+        t = text[i:j + 1]
+        if t not in out:
+            out.append(t)
+        i += 7
+
+
+def sjoin_extensionality(assumptions, goal):
+    """join is a function of the sequence contents: instances for every pair of joins with the same separator"""
+    text = '\n'.join(a for a, _ in assumptions) + '\n' + (goal or '')
+    terms = _sjoin_terms(text)
+    by_sep = {}
+    for t in terms:
+        parts = smt.split_top(t[7:-1])
+        if len(parts) == 2 and 'cj!' not in parts[1] and not any(b in parts[1] for b in ('$J',)):
+            by_sep.setdefault(parts[0], []).append(parts[1])
+    out = []
+    for sep, qs in by_sep.items():
+        qs = [q for q in qs if not _has_bound(q, text)]
+        for a in range(len(qs)):
+            for b in range(a + 1, len(qs)):
+                qa, qb = qs[a], qs[b]
+                out.append("(=> (and (= (len %s) (len %s)) (forall ((xj Int)) (=> (and (<= 0 xj) (< xj (len %s))) (= (at %s xj) (at %s xj))))) (= (sjoin %s %s) (sjoin %s %s)))"
+                           % (qa, qb, qa, qa, qb, sep, qa, sep, qb))
+    return out[:40]
+
+
+def _has_bound(q, text):
+    import re
+    for m in re.finditer(r'[A-Za-z_]+![0-9]+', q):
+        v = m.group(0)
+        if ('((%s Int)' % v) in text or ('(%s Int)' % v) in text:
+            return True
+    return False
+
+
 def smt_text(decls, assumptions, goal):
     lines = [smt.PREAMBLE, decls.text()]
     for a, _ in assumptions:
         lines.append('(assert %s)' % a)
+    if goal is not None and '(sjoin ' in goal:
+        for ax in sjoin_extensionality(assumptions, goal):
+            lines.append('(assert %s)' % ax)
     if goal is not None:
         lines.append('(assert (not %s))' % goal)
     lines.append('(check-sat)')
